@@ -37,6 +37,10 @@ def probe_histories():
         {"name": "failed-save-then-corrected", "steps": [("trigger", 1, 1, 1), ("break_message",), ("failing_save",), ("fix_message",), ("save",)]},
         {"name": "grow-failed-save-corrected", "steps": [("trigger", 2, 1, 0), ("save",), ("trigger", 1, 2, 0), ("break_message",), ("failing_save",),
                                                           ("fix_message",), ("save",)]},
+        # a save that fails while the SECTIONS are serialised (a unit id that does not fit its field), onto a fresh path and
+        # onto an earlier good file: whatever is at the destination afterwards has to be a well-formed file
+        {"name": "serialisation-fails-fresh-path", "steps": [("units", 2), ("break_unit",), ("failing_save",), ("fix_unit",), ("save",)]},
+        {"name": "serialisation-fails-over-good-file", "steps": [("units", 2), ("break_unit",), ("failing_save_over",), ("fix_unit",), ("save",)]},
     ]
 
 
@@ -165,10 +169,20 @@ def worker(version, args):
                         scn.trigger_manager.triggers[-1].effects[-1].message = 12345
                     elif stp[0] == "fix_message":
                         scn.trigger_manager.triggers[-1].effects[-1].message = "fixed"
-                    elif stp[0] == "failing_save":
+                    elif stp[0] == "break_unit":
+                        [u for l in scn.unit_manager.units for u in l][-1].reference_id = 2 ** 40
+                    elif stp[0] == "fix_unit":
+                        [u for l in scn.unit_manager.units for u in l][-1].reference_id = 77
+                    elif stp[0] in ("failing_save", "failing_save_over"):
                         fnx = os.path.join(tmp, f"probe_{pr['name']}_fail.aoe2scenario")
-                        common.outcome(scn.write_to_file, fnx)          # expected to raise; whatever it did, the next save counts
+                        if stp[0] == "failing_save_over":
+                            shutil.copyfile(small, fnx)                  # an earlier good file at the destination
+                        stx, ex = common.outcome(scn.write_to_file, fnx)          # expected to raise
                         if os.path.exists(fnx):
+                            # whatever a save leaves at its destination - also one that raised - is a file the library wrote
+                            replay_f = {"version": version, "probe": pr["name"], "steps": pr["steps"], "failed_save": True,
+                                        "save_outcome": stx if stx == "ok" else ex, "bytes": os.path.getsize(fnx)}
+                            check_file(R, drv, version, fnx, idx, None, replay_f, True, f"probe:{pr['name']}:failed-save-left-a-file")
                             os.remove(fnx)
                     elif stp[0] == "save":
                         fn = os.path.join(tmp, f"probe_{pr['name']}_{nsave}.aoe2scenario")
